@@ -25,7 +25,7 @@ Lemma ex_res_read : read_rawcells_model ex_file = Ok ex_res.
 Proof. vm_compute. reflexivity. Qed.
 Lemma ex_writer_ok : writer_ok ex_name ex_writer.
 Proof.
-  unfold writer_ok, ex_name, ex_writer, name_fits, no_nul, real_ok. cbn [gw_units gw_ts ex_lib g_units fst snd length ex_ts].
+  unfold writer_ok, ex_name, ex_writer, name_fits, no_nul, unit_ok, real_mantissa. cbn [gw_units gw_ts ex_lib g_units fst snd length ex_ts].
   repeat split; try lia. repeat constructor; discriminate.
 Qed.
 
